@@ -234,8 +234,10 @@ def invert_power(unit):
         return prefix + unit + "^-1"
     if power[0] == "-":
         power = power[1:]
+    elif power[0] == "+":
+        power = "-" + power[1:]
     else:
-        power = "^-" + power
+        power = "-" + power
     return prefix + unit + "^" + power
 
 
